@@ -209,3 +209,15 @@ prop(
     assumptions=["text/template and fmt are re-implemented for the verbs in use (%5d %5s %0.2f, Stringer) and tied by exact byte comparison",
                  "uint64(float) conversion for negative values as on amd64", "the tty/notty choice is forced through an accessor (Template() looks at the real stdin)"],
 )
+
+prop(
+    id="C11",
+    stages=[dict(name="c11", pkg="c11", test="TestC11", access=[], timeout_quick=300, timeout_thorough=3000)],
+    rule="gaussian.NewCalculator(...).For and CalculateGaussianRate(...).Rate (jitter 0, distribution none) over 1-3 whole window-aligned windows on synthetic times: volumes 1..1e7, "
+         "10-1500 ticks per window at 10ms..1min frequency, peak anywhere incl. the window edges, sigma from 1x to 10x-window the frequency, 0-7 weights; per-tick outputs equal the binary64 model's exactly "
+         "(density and CDF values are oracles from internal/gaussian); per window the predicate gauss_ok (non-negative, no tick more than one above the tick nearest the peak, total within the "
+         "discretisation tolerance); non-trivial = weighted or multi-window case / every window predicate; distinct = distinct cases",
+    assumptions=["math.Exp and math.Erfc (through internal/gaussian PDF/CDF) are oracles taken from the run",
+                 "the discretisation tolerance of gauss_ok (one tick's density at each window edge + 0.05 (f/sigma)^2 of the volume + 2) is the harness's reading of 'within the discretisation error'",
+                 "float64 = IEEE-754 binary64 (see C10 stage f64)"],
+)
